@@ -71,16 +71,16 @@ fn block_prefix_body(with_corr: bool) {
     }
 }
 
-static mut BIG: [u8; 400] = [0; 400];
+static mut BIG: [u8; 160] = [0; 160];
 
 // @harness props=C09,C01 tier=quick layer=L1
 // @harness funcs="MqttSerializer::finalize, write_mqtt_u32_varint"
-// @harness sym="body length 0..=390 (serializer index), flag nibble" bounds="covers the 1/2-byte remaining-length boundary on a real buffer (16 KiB and 2 MiB buffers for the 2/3 and 3/4 boundaries did not finish in 300 s; those boundaries are covered arithmetically by c08_varint_roundtrip, exhaustive over u32)"
+// @harness sym="body length 0..=150 (serializer index), flag nibble" bounds="covers the 1/2-byte remaining-length boundary on a real buffer (16 KiB and 2 MiB buffers for the 2/3 and 3/4 boundaries did not finish in 300 s; those boundaries are covered arithmetically by c08_varint_roundtrip, exhaustive over u32)"
 #[kani::proof]
 #[kani::unwind(6)]
 fn c09_finalize_fixed_header() {
     let body: usize = kani::any();
-    kani::assume(body <= 390);
+    kani::assume(body <= 150);
     let flags: u8 = kani::any();
     let buf: &'static mut [u8] = unsafe { &mut *core::ptr::addr_of_mut!(BIG) };
     let ser = MqttSerializer { buf, index: MAX_FIXED_HEADER_SIZE + body };
